@@ -208,6 +208,38 @@ def flat_cache_key(ctx, rule="DEP-cache-key"):
 # ====================================================================== C07
 
 
+def eval_handle_modular_vmap(ev, ret, batched, size, kind, nconst):
+    """Value of VmapBatchHandler._handle_modular_vmap on model operands (dummy, <nconst keyless constants>, leaf0, leaf1) flattened from the
+    site's own call f(leaf0, leaf1) / f(leaf0, kw=leaf1): (returned value, static_dim_length calls, re-bound sampler calls)."""
+    from ..absint import Model, Opq, TreeDef
+    VA, BA, PR = ("param", "vector_args"), ("param", "batch_axes"), ("param", "params")
+    m = Model(evaluator=ev)
+    consts = ("keyless-const",) * nconst
+    m.bind(VA, ("dummy",) + consts + ("leaf0", "leaf1"))
+    m.bind(BA, ("dummy-axis",) + (None,) * nconst + (0 if batched else None, None))
+    pd = {"axis_size": 5 if size else None, "ctx": "modular_vmap", "in_tree": TreeDef(kind), "num_consts": nconst, "yes_kwargs": kind == "kwargs"}
+    m.bind(PR, pd)
+    seen_sdl = []
+
+    def sdl(axes, args):
+        seen_sdl.append((tuple(axes), tuple(args)))
+        return 3 if batched else None
+    m.funcs[PJ + "static_dim_length"] = sdl
+    m.bind(("attr", SELF, "_compute_outer_batch_dim"), lambda n, ax: () if n is not None else ((ax,) if ax else ()))
+    m.bind(("attr", ("attr", SELF, "config"), "sample_shape"), (2,))
+    m.bind(("attr", ("attr", SELF, "config"), "with_sample_shape"), lambda shp: Opq("config-with-shape", tuple(shp)))
+    m.funcs["jax.tree_util.tree_unflatten"] = lambda td, leaves: td.unflatten(leaves) if isinstance(td, TreeDef) else Opq("unflatten", td, tuple(leaves))
+    rebound = []
+
+    def csp(cfg):
+        def run(*a, **k):
+            rebound.append((cfg, a, k))
+            return Opq("draw", len(rebound))
+        return run
+    m.funcs[PJ + "create_sample_primitive"] = csp
+    return m.ev(ret), seen_sdl, rebound
+
+
 def vmap_lane_randomness(ctx, rule="SHAPE-lanes"):
     """Under modular_vmap a sampling site draws one value per lane: the re-bound sample shape is extended by axis_size
     whenever no argument carries the batch axis, and the output is declared batched on axis 0 in that case."""
@@ -238,25 +270,37 @@ def vmap_lane_randomness(ctx, rule="SHAPE-lanes"):
     s = summarize(ctx, ev, dotted)
     ck = Checker(ctx, ev, lin, rule, "pjax.VmapBatchHandler._handle_modular_vmap", func_loc(ctx, dotted))
     VA, BA, PR = ("param", "vector_args"), ("param", "batch_axes"), ("param", "params")
-    va1, ba1 = ("rest", VA, 1), ("rest", BA, 1)
-    nterm = call(N(PJ + "static_dim_length"), ba1, va1)
-    axs = ("idx", PR, C("axis_size"))
-    it = items(s.ret)
-    if it is None or len(it) != 2:
-        ck.fail("returns (outvals, out_axes)", f"found {short(s.ret, ev)}")
-    else:
-        outer = ("call", ("attr", SELF, "_compute_outer_batch_dim"), (nterm, axs), ())
-        newshape = ("binop", "+", outer, ("attr", ("attr", SELF, "config"), "sample_shape"))
-        want_res = ("call", call(N(PJ + "create_sample_primitive"), ("call", ("attr", ("attr", SELF, "config"), "with_sample_shape"), (newshape,), ())), (("star", va1),), ())
-        n1 = lin.norm(it[0])
-        ck.eq("re-bound with sample_shape = outer batch dim + site sample_shape on the dummy-stripped operands", n1, ("tuple", (want_res,)))
-        oa = lin.norm(it[1])
-        ok = items(oa) and len(items(oa)) == 1
-        if ok:
-            o = items(oa)[0]
-            ok = o == ("ifexp", ("boolop", "or", (nterm, axs)), C(0), NONE)
-        if not ok:
-            ck.fail("out axis 0 whenever the lanes are batched or axis_size is given (never a broadcast single draw)", f"found {short(oa, ev)}")
+    # evaluated on model operands: (dummy, leaf0, leaf1) flattened from the site's own call f(leaf0, leaf1) / f(leaf0, kw=leaf1)
+    from ..absint import Model, Opq, Unknown, TreeDef
+    import itertools
+    for batched, size, kind, nconst in itertools.product((True, False), (True, False), ("args", "kwargs"), (0, 1)):
+        consts = ("keyless-const",) * nconst
+        try:
+            got, seen_sdl, rebound = eval_handle_modular_vmap(ev, s.ret, batched, size, kind, nconst)
+        except Unknown as e:
+            raise AnalysisError(f"{dotted}: cannot evaluate [batched={batched}, axis_size={size}, {kind}, {nconst} consts]: {e}")
+        when = f"[operands batched={batched}, axis_size given={size}, site called with {'keyword' if kind == 'kwargs' else 'positional'} parameters, {nconst} closed-over constant(s)]"
+        outer = () if batched else ((5,) if size else ())
+        if not (isinstance(got, tuple) and len(got) == 2):
+            ck.fail("returns (outvals, out_axes)", f"{when} found {got!r}")
+            continue
+        if seen_sdl and seen_sdl[0] not in (((None,) * nconst + (0 if batched else None, None), consts + ("leaf0", "leaf1")), ((0 if batched else None, None), ("leaf0", "leaf1"))):
+            ck.fail("axis size taken from the dummy-stripped operands", f"{when} static_dim_length{seen_sdl[0]!r}")
+        if len(rebound) != 1 or not (isinstance(got[0], (tuple, list)) and list(got[0]) == [Opq("draw", 1)]):
+            ck.fail("re-bound with sample_shape = outer batch dim + site sample_shape on the dummy-stripped operands", f"{when} {len(rebound)} re-binds; outvals {got[0]!r}")
+            continue
+        cfg, a_, k_ = rebound[0]
+        if cfg != Opq("config-with-shape", outer + (2,)):
+            ck.fail("re-bound with sample_shape = outer batch dim + site sample_shape on the dummy-stripped operands", f"{when} new config {cfg!r}; expected sample_shape {outer + (2,)!r}")
+        want_a, want_k = (("leaf0", "leaf1"), {}) if kind == "args" else (("leaf0",), {"kw": "leaf1"})
+        if (tuple(a_), dict(k_)) != (want_a, want_k):
+            ck.fail("re-bound on the site's own (args, kwargs) rebuilt from the flat operands",
+                    f"{when} the re-bound sampler is called with {tuple(a_)!r}, {dict(k_)!r} instead of {want_a!r}, {want_k!r}: under modular_vmap keyword "
+                    "parameters reach the distribution positionally, in flattening order, and constants closed over by the sampler are passed as extra arguments; "
+                    "input: modular_vmap(lambda: bernoulli.sample(probs=0.1), axis_size=N)() draws with logits=0.1")
+        want_ax = 0 if (batched or size) else None
+        if not (isinstance(got[1], (tuple, list)) and list(got[1]) == [want_ax]):
+            ck.fail("out axis 0 whenever the lanes are batched or axis_size is given (never a broadcast single draw)", f"{when} found {got[1]!r}")
     ck.done()
     # with_sample_shape copies every other field of the config
     dotted = PJ + "SamplerConfig.with_sample_shape"
@@ -692,9 +736,13 @@ def dummy_protocol_events(ctx, rule="SIB-dummy-arg"):
         ctx.ok(rule, "pjax.initial_style_bind.abstract", f"strips {injected} leading aval under ctx == 'modular_vmap'")
     # reader 2: the sample batch rule strips operand and axis (symbolic summary)
     s2 = summarize(ctx, ev, PJ + "VmapBatchHandler._handle_modular_vmap")
-    VA, BA = ("param", "vector_args"), ("param", "batch_axes")
-    want = call(N(PJ + "static_dim_length"), ("rest", BA, injected), ("rest", VA, injected))
-    ok = any(x == want for x in subterms(s2.ret)) and any(x == ("star", ("rest", VA, injected)) for x in subterms(s2.ret))
+    from ..absint import Unknown
+    try:
+        got, seen_sdl, rebound = eval_handle_modular_vmap(ev, s2.ret, True, True, "args", 0)
+    except Unknown as e:
+        raise AnalysisError(f"pjax.VmapBatchHandler._handle_modular_vmap: cannot evaluate: {e}")
+    flat_seen = [x for c in rebound for x in list(c[1]) + list(c[2].values())] + [x for c in seen_sdl for part in c for x in part]
+    ok = injected == 1 and bool(rebound) and "dummy" not in flat_seen and "dummy-axis" not in flat_seen and all("leaf0" in c[1] for c in rebound)
     if ok:
         ctx.ok(rule, "pjax.VmapBatchHandler._handle_modular_vmap", f"strips {injected} leading operand and axis")
     else:
@@ -1120,3 +1168,85 @@ def nested_jaxpr_seeded_events(ctx, rule="OWN-nested-key-stream"):
     tr = sorted({short(c, ev, 80) for e in s.events for c, v in e[0] if isinstance(c, tuple) and any(x[0] == "name" and x[1].split(".")[-1] in ("Tracer", "is_concrete") for x in subterms(c))})
     if tr:
         ctx.observe(rule, "pjax.Seed.eval_jaxpr_seed", f"dispatch depends on tracer-ness: {tr}")
+
+
+def flat_sampler_staging(ctx, rule="ROLE-flat-sampler"):
+    """The flat keyful sampler that `seed` substitutes for a sampling site is the shape-applied keyful sampler staged on exactly the
+    site's own call - (key, *args, **kwargs) - so positional and keyword parameters reach the distribution the same way they do in
+    the unseeded sampler and in logpdf; the flat wrapper evaluates the staged Jaxpr on (consts, remaining flat operands)."""
+    ev = mk_ev(ctx)
+    dotted = PJ + "FlatSamplerCache.get_flat_sampler"
+    s = summarize(ctx, ev, dotted)
+    loc = func_loc(ctx, dotted)
+    construct = "pjax.FlatSamplerCache.get_flat_sampler"
+    ARGS, KW = ("param", "args"), ("param", "kwargs")
+    staged = [e[2] for e in s.events if e[1] == "call" and is_call(e[2][1]) and e[2][1][1] == ("attr", SELF, "_make_flat")]
+    staged = list(dict.fromkeys(staged))
+    ctx.need(len(staged) >= 1, f"{dotted}: staging call self._make_flat(...)(...) not found (anchor vanished)")
+    kws = ("call", ("attr", ("attr", SELF, "config"), "get_keyful_sampler_with_shape"), (), ())
+    problems = []
+    for t in staged:
+        if t[1][2] != (kws,):
+            problems.append(f"the staged function is {short(t[1][2][0] if t[1][2] else NONE, ev, 80)}, not the shape-applied keyful sampler")
+        if t[2] != (N(PJ + "_fake_key"), ("star", ARGS)) or t[3] != ((None, KW),):
+            problems.append(f"staged on {short(('tuple', t[2]), ev, 100)} {short(('dict', tuple((C(k), v) for k, v in t[3] if k is not None)), ev, 60) if any(k for k, _ in t[3]) else ''}"
+                            "instead of (fake key, *args, **kwargs): keyword parameters (or their order) reach the distribution differently on the seeded path than in sample()/logpdf()")
+    stored = s.env.get(("attr", SELF, "_flat_sampler"))
+    if stored is None or not any(x == ("idx", t, C(0)) for t in staged for x in subterms(stored)):
+        problems.append("the flat sampler returned/stored is not the first component of the staging result")
+    if problems:
+        ctx.bad(rule, construct, "flat sampler staged on (fake key, *args, **kwargs) of this call", "; ".join(dict.fromkeys(problems)), loc)
+    else:
+        ctx.ok(rule, construct, "keyful sampler with sample_shape applied, staged on (fake key, *args, **kwargs)")
+    # _make_flat: stage f on its own call, evaluate the staged jaxpr on (consts, rest)
+    dotted = PJ + "FlatSamplerCache._make_flat"
+    s = summarize(ctx, ev, dotted)
+    construct = "pjax.FlatSamplerCache._make_flat"
+    clo = closure_in(s.ret)
+    ctx.need(clo is not None, f"{dotted}: inner wrapper not found (anchor vanished)")
+    A_, K_ = ("param", "a_"), ("param", "kw_")
+    r = ev.apply_closure(clo, (("star", A_),), ((None, K_),))
+    F = ("param", "f")
+    st = ("call", call(N(PJ + "stage"), F), (("star", A_),), ((None, K_),))
+    it = items(r)
+    ok = it is not None and len(it) == 2 and it[0][0] == "closure"
+    why = f"returns {short(r, ev, 120)}"
+    if ok:
+        FA, PR = ("param", "fa_"), ("param", "pr_")
+        b = ev.apply_closure(it[0], (("star", FA),), ((None, PR),))
+        ok = is_call(b) and b[1][0] == "name" and b[1][1].split(".")[-1] == "eval_jaxpr" and any(x == st for x in subterms(b))
+        why = f"flat(*flat_args, **params) = {short(b, ev, 160)}"
+        if ok:
+            # writer/reader protocol: Seed calls flat(sub_key, *operands, **inner_params) where the equation's operands are the constants of the
+            # *keyless* staging (params['num_consts'] of them) followed by the site's flat arguments; the keyful staging has its own constants.
+            from ..absint import Model, Opq, Unknown
+            for nconst in (0, 1, 2):
+                m = Model()
+                ops = tuple(f"keyless-const{i}" for i in range(nconst)) + ("x0", "x1")
+                m.bind(FA, ("KEY",) + ops)
+                m.bind(PR, {"num_consts": nconst, "other": 2})
+                m.funcs["jax._src.util.split_list"] = lambda l, ns: [list(l)[:ns[0]], list(l)[ns[0]:]]
+                m.funcs["jax.util.split_list"] = m.funcs["jax._src.util.split_list"]
+
+                class CJ:
+                    model_attrs = {"jaxpr": Opq("J"), "consts": ["keyful-const"], "literals": ["keyful-const"]}
+                cj = CJ()
+                m.bind(st, (cj, Opq("meta")))
+                m.bind(("idx", st, C(0)), cj)
+                try:
+                    args, kwargs = m.args_of(b)
+                except Unknown as e:
+                    raise AnalysisError(f"{construct}: cannot evaluate flat(): {e}")
+                want_consts = ["keyful-const"] if nconst else None
+                good = len(args) >= 2 and args[0] == Opq("J") and list(args[2:]) == ["KEY", "x0", "x1"] and not kwargs \
+                    and (list(args[1]) == ["keyful-const"] or (nconst == 0 and list(args[1]) == []))
+                if not good:
+                    ok = False
+                    why = (f"Seed calls flat(key, *operands, **params) with operands = {nconst} constant(s) of the keyless staging followed by the site's arguments; flat evaluates the "
+                           f"keyful jaxpr with consts {list(args[1]) if len(args) > 1 else None!r} on {list(args[2:])!r} instead of its own constants on ('KEY', 'x0', 'x1'): a sampler that closes over an "
+                           "array constant works unseeded but fails (or draws from the wrong operands) under seed; input: d = tfp_distribution(lambda s: tfd.Normal(loc_array, s)); seed(lambda: d.sample(1.))(key)")
+                    break
+    if ok:
+        ctx.ok(rule, construct, "stage(f)(*args, **kwargs); flat(*flat_args) = eval_jaxpr(jaxpr, consts, *rest)")
+    else:
+        ctx.bad(rule, construct, "stage on the call's own arguments; evaluate on (consts, rest)", why, func_loc(ctx, dotted))
